@@ -123,7 +123,7 @@ structure Sample where
   name : String
   experiment : String
   annots : List (String × String)
-  deriving Repr
+  deriving Repr, DecidableEq
 
 structure Marker where
   fprimer : String
